@@ -34,7 +34,8 @@ From RU Require Import Base.Prelude Base.Utf8 Base.Utf8Facts Model.AsciiSet Gen.
   Proofs.ListN Proofs.C02_Enc Proofs.C02_Parts Proofs.C02_Opaque Proofs.C02_Path Proofs.C02_PathL1 Proofs.C02_Reach
   Proofs.C03_WF Proofs.C06_List Proofs.C06_WFI Proofs.C06_Tail
   Proofs.C08_Input Proofs.C08_Simple Proofs.C08_Contain Proofs.C08_NoAuth Proofs.C08_Absolute Proofs.C08_Relative Proofs.C08_RelEval
-  Proofs.C08_RelPath Proofs.C08_RelJoin Proofs.C08_RelMr Proofs.C08_RelLaw Proofs.C08_RelCanon Proofs.C08_RelNoAuth.
+  Proofs.C08_RelPath Proofs.C08_RelJoin Proofs.C08_RelMr Proofs.C08_RelLaw Proofs.C08_RelCanon Proofs.C08_RelNoAuth
+  Proofs.C02_AuthParts Proofs.C02_Auth Proofs.C02_AuthSp Proofs.C02_AuthMain Proofs.C08_AbsNonfile Proofs.C08_RelAuth.
 From RU Require Properties.C02.
 Open Scope N_scope.
 Open Scope list_scope.
@@ -216,6 +217,41 @@ Example C08_absolute_auth_inhabited :
   /\ utf8_lossy (ser u) = B "http" ++ 58 :: 47 :: 47 :: B "h/a/b?q#f" /\ scheme_canon (B "http") = true.
 Proof. vm_compute. repeat split. Qed.
 
+(* PROVED for every URL parsed without a base whose scheme is not "file" (nonfile_input: decided on the input -
+   it has a scheme other than file; C02's classes (i)-(iv)): its serialization resolves to itself against ANY base
+   record b (no premise on b at all - not even well-formedness; cannot-be-a-base bases included).  Host hypotheses
+   as in C02: HostRT (the parsing clauses of HostOK; HostOK implies it, C02_AuthParts.HostOK_RT) and host_above
+   (displayed hosts are above U+0020).  What is missing towards C08_absolute_statement: u with scheme "file",
+   u produced by a join or by a setter rather than by a no-base parse. *)
+Theorem C08_absolute_nonfile : forall dbg hp hpo hd, HostRT hp hpo hd -> host_above hp hpo hd ->
+  forall b input u, usv_list input -> nonfile_input input = true ->
+  parse_url dbg hp hpo hd None None input = POk u ->
+  join dbg hp hpo hd b (utf8_lossy (ser u)) = POk u.
+Proof. intros dbg hp hpo hd HRT HAb b input u. exact (absolute_nonfile dbg hp hpo hd HRT b input u HAb). Qed.
+Check C08_absolute_nonfile : forall dbg hp hpo hd, HostRT hp hpo hd -> host_above hp hpo hd ->
+  forall b input u, usv_list input -> nonfile_input input = true ->
+  parse_url dbg hp hpo hd None None input = POk u ->
+  parse_url dbg hp hpo hd None (Some b) (utf8_lossy (ser u)) = POk u.
+Print Assumptions C08_absolute_nonfile.
+(* the same under HostOK, the hypothesis of C08_absolute_statement *)
+Theorem C08_absolute_nonfile_HostOK : forall dbg hp hpo hd, HostOK hp hpo hd -> host_above hp hpo hd ->
+  forall b input u, usv_list input -> nonfile_input input = true ->
+  parse_url dbg hp hpo hd None None input = POk u ->
+  join dbg hp hpo hd b (utf8_lossy (ser u)) = POk u.
+Proof. intros dbg hp hpo hd HOK HAb b input u. exact (absolute_nonfile_HostOK dbg hp hpo hd b input u HOK HAb). Qed.
+Print Assumptions C08_absolute_nonfile_HostOK.
+(* non-vacuity: the host hypotheses have an instance (C02_host_hypotheses_inhabited); with it five inputs of the
+   class (special with '\' and a default port, special without slashes, non-special with credentials and port,
+   authority-less with the "/." marker, opaque) resolve to themselves against special, file, opaque bases *)
+Example C08_absolute_nonfile_inhabited :
+  (HostRT ex_hp ex_hp ex_hd /\ host_above ex_hp ex_hp ex_hd)
+  /\ ex_abs "HTTP:\\u@h.x:80\a\..\b?q'#f" "http://other/dir/file?x#y" = true
+  /\ ex_abs "http:h.x" "http://other/dir/file" = true
+  /\ ex_abs "a://u:p@h.x:81/a/../b?q#f" "file:///c:/x" = true
+  /\ ex_abs "a:/..//x" "about:blank" = true
+  /\ ex_abs "mailto:x@y?subject=%41" "ws://h/" = true.
+Proof. split; [exact ex_host_RT | exact abs_nonfile_inhabited]. Qed.
+
 (* the two classes where C02 proved re-parsing: opaque paths and authority-less '/'-led paths *)
 Theorem C08_absolute_opaque : forall dbg hp hpo hd ovr b sch P q f, opaque_ok sch P q f ->
   parse_url dbg hp hpo hd ovr (Some b) (opaque_ser sch P q f) = POk (opaque_url sch P q f).
@@ -324,6 +360,64 @@ Example C08_relative_noauth_inhabited :
   /\ Properties.C02.noauth_input (B "a:/x") = true /\ Properties.C02.noauth_input (B "a:/") = true
   /\ mr_holds "a:/x" "a:/" "/" = true.
 Proof. vm_compute. repeat split. Qed.
+
+(* PROVED: C08_relative_statement for ALL parse results of non-file schemes - base and target each parsed without a
+   base from an input with a scheme other than "file" (nonfile_input; any of C02's classes: special, non-special
+   with authority, authority-less, opaque - for an opaque record MR_ok is false, and so it is for two records of
+   different classes).  No canonical-form premise: C02's L1 supplies the form, C02's L3 identifies the target with
+   the record that has the base's stored offsets.  Hypotheses on the host functions as in C02 (HostRT + host_above;
+   HostOK implies HostRT).
+   What is STILL MISSING towards C08_relative_statement:
+     (a) base and target both with scheme "file" (if only one is a file URL make_relative answers None);
+     (b) records produced by join or by the setters rather than by a no-base parse - for those that are in one of
+         C02's three hierarchical canonical forms see C08_relative_canon_forms below;
+     (c) the statement assumes HostOK only, the theorem also host_above (HostOK does not say that displayed
+         hosts are free of trailing spaces - a gap of the hypothesis, see Properties/C02.v section G). *)
+Theorem C08_relative_parsed : forall dbg hp hpo hd, HostRT hp hpo hd -> host_above hp hpo hd ->
+  forall bi ti b t r, usv_list bi -> usv_list ti ->
+  nonfile_input bi = true -> nonfile_input ti = true ->
+  parse_url dbg hp hpo hd None None bi = POk b -> parse_url dbg hp hpo hd None None ti = POk t ->
+  mr_ok b t = true -> make_relative dbg b t = Some (Some r) ->
+  join dbg hp hpo hd b r = POk t.
+Proof. intros dbg hp hpo hd HRT HAb bi ti b t r. exact (relative_parsed dbg hp hpo hd HRT bi ti b t r HAb). Qed.
+Check C08_relative_parsed : forall dbg hp hpo hd, HostRT hp hpo hd -> host_above hp hpo hd ->
+  forall bi ti b t r, usv_list bi -> usv_list ti ->
+  nonfile_input bi = true -> nonfile_input ti = true ->
+  parse_url dbg hp hpo hd None None bi = POk b -> parse_url dbg hp hpo hd None None ti = POk t ->
+  mr_ok b t = true -> make_relative dbg b t = Some (Some r) ->
+  parse_url dbg hp hpo hd None (Some b) r = POk t.
+Print Assumptions C08_relative_parsed.
+Theorem C08_relative_parsed_HostOK : forall dbg hp hpo hd, HostOK hp hpo hd -> host_above hp hpo hd ->
+  forall bi ti b t r, usv_list bi -> usv_list ti ->
+  nonfile_input bi = true -> nonfile_input ti = true ->
+  parse_url dbg hp hpo hd None None bi = POk b -> parse_url dbg hp hpo hd None None ti = POk t ->
+  mr_ok b t = true -> make_relative dbg b t = Some (Some r) ->
+  join dbg hp hpo hd b r = POk t.
+Proof. intros dbg hp hpo hd HOK HAb bi ti b t r. exact (relative_parsed_HostOK dbg hp hpo hd bi ti b t r HOK HAb). Qed.
+Print Assumptions C08_relative_parsed_HostOK.
+
+(* ... and for records of ANY origin (parser, join, setters) that are in one of C02's three hierarchical canonical
+   forms (Properties/C02.v: canon_noauth, canon_auth .. STNotSpecial, canon_special) *)
+Theorem C08_relative_canon_forms : forall dbg hp hpo hd, HostRT hp hpo hd ->
+  forall b t r,
+  (Properties.C02.canon_noauth b \/ canon_auth hp hpo hd STNotSpecial b \/ canon_special hp hpo hd b) ->
+  (Properties.C02.canon_noauth t \/ canon_auth hp hpo hd STNotSpecial t \/ canon_special hp hpo hd t) ->
+  mr_ok b t = true -> make_relative dbg b t = Some (Some r) ->
+  join dbg hp hpo hd b r = POk t.
+Proof. intros dbg hp hpo hd HRT b t r. exact (relative_canon_forms dbg hp hpo hd b t r HRT). Qed.
+Print Assumptions C08_relative_canon_forms.
+
+(* non-vacuity: with the host functions of C02_host_hypotheses_inhabited, five pairs of inputs of the class
+   ("HTTP:\\..\a\d\.\e" is read as http://../a/d/e) whose parse results are inside MR_ok, the reference
+   make_relative answers, and its resolution *)
+Example C08_relative_parsed_inhabited :
+  (HostRT ex_hp ex_hp ex_hd /\ host_above ex_hp ex_hp ex_hd)
+  /\ ex_mr "http://u@h.x:81/a/b/c?q" "HTTP:\\u@h.x:81\a\d\.\e#f" "../d/e#f" = true
+  /\ ex_mr "https://h/a/b" "https://h/a/b?x" "?x" = true
+  /\ ex_mr "a://u:p@h.x:81/x/y" "a://u:p@h.x:81/x/z\w?q" "z\w?q" = true
+  /\ ex_mr "a:///x/y" "a:///" "../" = true
+  /\ ex_mr "a:/x/y" "a:/z" "../z" = true.
+Proof. split; [exact ex_host_RT | exact rel_parsed_inhabited]. Qed.
 
 (* non-vacuity: pairs of parse results inside rel_canon (with the reference make_relative answers), and the
    explicit form of one pair *)
